@@ -23,4 +23,11 @@ U64s == { Zero, One, MaxI64, Pow2(63), Sub(Pow2(64), One) }
 Out(c, q, d) == [addr |-> "addr", coin |-> IntV(c), assets |-> << <<"policy", "name", IntV(q)>> >>, dhash |-> "", datum |-> d]
 MCTxs == { [hash |-> "h", inputs |-> <<"a#0", "b#1", "a#0">>, outputs |-> <<Out(c, q, [t |-> "none"]), Out(q, c, I(f))>>,
             fee |-> IntV(f), start |-> "0", ttl |-> "100"] : c \in U64s, q \in U64s, f \in U64s }
+
+\* the mapper is stateless: one call of each entry point per argument is every behaviour
+Fresh == arg = NoCall
+CallMapPlutusBigInt == Fresh /\ \E l \in Ints : MapPlutusBigInt(l)
+CallMapPlutusDatum == Fresh /\ \E d \in Datums : MapPlutusDatum(d)
+CallMapTx == Fresh /\ \E t \in Txs : MapTxAction(t)
+MCNext == CallMapPlutusBigInt \/ CallMapPlutusDatum \/ CallMapTx
 =============================================================================
